@@ -123,9 +123,13 @@ def check_crashes(res, ctx, jobs):
                        "new": [[d, s] for d, s in new], "crash": spec, "today": today, "avail": avail,
                        "lookups": lookups, "stale_tmp": stale,
                        # every third job over an existing year: the live name is a symbolic link to the file
-                       "live_symlink": bool(old is not None and len(hcases) % 3 == 2)})
+                       "live_symlink": bool(old is not None and len(hcases) % 3 == 2),
+                       # ... every third: it has a second hard link
+                       "live_hardlink": bool(old is not None and len(hcases) % 3 == 1)})
         if hcases[-1]["live_symlink"]:
             st["live-file-is-symlink"] += 1
+        if hcases[-1]["live_hardlink"]:
+            st["live-file-has-second-hard-link"] += 1
         total = len(render(new))
         n, cut = steps_of(spec, len(new), total)
         m1.append(crash_ints(old, new, n, cut, stale))
